@@ -583,3 +583,104 @@ Proof. intros H. rewrite gen_linkN_unfold. destruct (forallb is_node _); [|refle
   assert (Hin : In x (filter is_frozen_model (opnd_flat o1 ++ opnd_flat o2))) by (apply filter_In; auto).
   destruct (filter _ _); [destruct Hin|cbn; lia]. Qed.
 End GenLinkNEq.
+
+(* ------------------------------------------------------------------ generated link: the ValueError case, in general
+   Under the same [Forall2 lrepr] correspondence (hence: every element a _Node, none frozen), the generated `link` raises
+   ValueError (lifted: [Exc4 (Py ValueError)]) IF AND ONLY IF some pair (left element, right element) visited by the nested loops
+   has a new edge (sender in the outputs of the left, receiver in the inputs of the right) joining two initialised nodes of
+   different dimensions; otherwise it returns [Val4 (MNew ..)] ([gen_link_is_model]). *)
+Section GenLinkClash.
+Variable ord_n : nat -> list node -> list node.
+Variable ord_e : nat -> list edge -> list edge.
+Variables is_model is_frozen_model is_initialized is_node : node -> bool.
+Variables attr_nodes attr_input_nodes attr_output_nodes : node -> list node.
+Variable attr_edges : node -> list edge.
+Variable dim : Type.
+Variables output_dim input_dim : node -> dim.
+Variable dim_eqb : dim -> dim -> bool.
+
+Let gN := g_linkN ord_n ord_e is_model is_frozen_model is_initialized is_node attr_nodes attr_input_nodes
+  attr_output_nodes attr_edges dim output_dim input_dim dim_eqb.
+Let g1 := g_link is_model is_frozen_model is_initialized attr_nodes attr_input_nodes attr_output_nodes attr_edges dim
+  output_dim input_dim dim_eqb.
+Let rp := repr is_model is_frozen_model attr_nodes attr_input_nodes attr_output_nodes attr_edges.
+Let lrp := lrepr is_model is_frozen_model is_node attr_nodes attr_input_nodes attr_output_nodes attr_edges.
+Let clash := dim_clash is_initialized dim output_dim input_dim dim_eqb.
+Let lb := lbody is_model is_frozen_model is_initialized attr_nodes attr_input_nodes attr_output_nodes attr_edges dim
+  output_dim input_dim dim_eqb.
+
+(* some new edge of the pair (a, b) joins two initialised nodes of different dimensions *)
+Definition has_clash (a b : value) : bool := existsb clash (list_prod (v_outs a) (v_ins b)).
+(* some pair produced by the nested loops clashes *)
+Definition any_clash (ls rs : list value) : bool := existsb (fun a => existsb (has_clash a) rs) ls.
+
+Lemma lbody_dich N A l r a b : rp l a -> rp r b ->
+  if has_clash a b then lb l (N, A) r = Exc4 (Py ValueError) else exists N' A', lb l (N, A) r = Val4 (N', A').
+Proof. intros Ha Hb. unfold lb, lbody, has_clash, clash.
+  rewrite (gen_link_1to1_is_model _ _ _ _ _ _ _ _ _ _ _ l r a b Ha Hb).
+  destruct (existsb _ _); cbn [py4_lift py4_bind]; [reflexivity|]. destruct (link_1to1 a b). eexists; eexists; reflexivity. Qed.
+
+Lemma linner_dich l a : rp l a -> forall rs bs, Forall2 lrp rs bs -> forall N A,
+  if existsb (has_clash a) bs then py4_for rs (lb l) (N, A) = Exc4 (Py ValueError)
+  else exists N' A', py4_for rs (lb l) (N, A) = Val4 (N', A').
+Proof. intros Ha. induction 1 as [|r b rs bs Hr Hf IH]; intros N A.
+  - cbn. eexists; eexists; reflexivity.
+  - cbn [py4_for existsb]. pose proof (lbody_dich N A l r a b Ha (proj1 Hr)) as Hd.
+    destruct (has_clash a b); cbn [orb].
+    + rewrite Hd. reflexivity.
+    + destruct Hd as [N1 [A1 Hd]]. rewrite Hd. apply IH.
+Qed.
+
+Lemma louter_dich rs bs : Forall2 lrp rs bs -> forall ls as_, Forall2 lrp ls as_ -> forall N A,
+  let loop := py4_for ls (fun '(nodes, edges) left_ =>
+      py4_bind (py4_for rs (lb left_) (nodes, edges)) (fun '(nodes, edges) => Val4 (nodes, edges))) (N, A) in
+  if any_clash as_ bs then loop = Exc4 (Py ValueError) else exists N' A', loop = Val4 (N', A').
+Proof. intros Hrs. induction 1 as [|l a ls as_ Hl Hf IH]; intros N A; cbv zeta.
+  - cbn. eexists; eexists; reflexivity.
+  - cbn [py4_for any_clash existsb]. pose proof (linner_dich l a (proj1 Hl) rs bs Hrs N A) as Hd.
+    cbv delta [Graph.node PyColl.node Graph.edge PyColl.edge] in *.
+    destruct (existsb (has_clash a) bs); cbn [orb].
+    + rewrite Hd. reflexivity.
+    + destruct Hd as [N1 [A1 Hd]]. rewrite Hd. cbn [py4_bind]. apply IH.
+Qed.
+
+(* the generated link under the correspondence: ValueError exactly when some visited pair clashes, a new Model otherwise *)
+Theorem gen_link_clash_dich (o1 o2 : operand) (name : unit) (ls rs : list value) :
+  Forall2 lrp (opnd_flat o1) ls -> Forall2 lrp (opnd_flat o2) rs ->
+  if any_clash ls rs then gN o1 o2 name = Exc4 (Py ValueError) else exists V E, gN o1 o2 name = Val4 (MNew V E).
+Proof. intros H1 H2. unfold gN. rewrite gen_linkN_unfold.
+  destruct (lrepr_checks is_model is_frozen_model is_initialized is_node attr_nodes attr_input_nodes attr_output_nodes attr_edges
+              dim output_dim input_dim dim_eqb _ _ H1) as [Hn1 Hf1],
+           (lrepr_checks is_model is_frozen_model is_initialized is_node attr_nodes attr_input_nodes attr_output_nodes attr_edges
+              dim output_dim input_dim dim_eqb _ _ H2) as [Hn2 Hf2].
+  cbv delta [Graph.node PyColl.node Graph.edge PyColl.edge] in *.
+  rewrite forallb_app, Hn1, Hn2, (frozen_none _ o1 Hf1), (frozen_none _ o2 Hf2). cbn [andb app length Nat.ltb Nat.leb].
+  unfold lloops. pose proof (louter_dich _ _ H2 _ _ H1 [] []) as Hd. cbv zeta in Hd.
+  cbv delta [Graph.node PyColl.node Graph.edge PyColl.edge] in *.
+  destruct (any_clash ls rs).
+  - unfold lb in Hd. rewrite Hd. reflexivity.
+  - destruct Hd as [N [A Hd]]. unfold lb in Hd. rewrite Hd. cbn [py4_bind]. eexists; eexists; reflexivity.
+Qed.
+
+Lemma any_clash_spec ls rs : any_clash ls rs = true <->
+  exists a b s r, In a ls /\ In b rs /\ In s (v_outs a) /\ In r (v_ins b) /\ clash (s, r) = true.
+Proof. unfold any_clash, has_clash. split.
+  - intros H. apply existsb_exists in H as [a [Ha H]]. apply existsb_exists in H as [b [Hb H]].
+    apply existsb_exists in H as [[s r] [Hi Hc]]. apply in_prod_iff in Hi as [Hs Hr]. exists a, b, s, r. auto.
+  - intros [a [b [s [r [Ha [Hb [Hs [Hr Hc]]]]]]]]. apply existsb_exists. exists a. split; [exact Ha|].
+    apply existsb_exists. exists b. split; [exact Hb|]. apply existsb_exists. exists (s, r). split; [|exact Hc].
+    apply in_prod_iff. auto.
+Qed.
+
+(* the iff: ValueError <-> some (sender output, receiver input) pair produced by the nested loops joins two initialised nodes
+   of different dimensions *)
+Theorem gen_link_dim_clash (o1 o2 : operand) (name : unit) (ls rs : list value) :
+  Forall2 lrp (opnd_flat o1) ls -> Forall2 lrp (opnd_flat o2) rs ->
+  (gN o1 o2 name = Exc4 (Py ValueError) <->
+   exists a b s r, In a ls /\ In b rs /\ In s (v_outs a) /\ In r (v_ins b) /\ clash (s, r) = true).
+Proof. intros H1 H2. rewrite <- any_clash_spec. pose proof (gen_link_clash_dich o1 o2 name ls rs H1 H2) as Hd.
+  destruct (any_clash ls rs).
+  - split; auto.
+  - destruct Hd as [V [E Hd]]. rewrite Hd. split; discriminate.
+Qed.
+End GenLinkClash.
